@@ -401,6 +401,7 @@ theorem key_interactive_complete (hG : ValidGroup G) (Sp Sv : State)
   have hk : checkElement .schnorr G m1 = true :=
     (checkElement_iff hG _).2 (mem_of_val hm1.1 hm1.2.1 hm1.2.2 (zpow_ne_zero _ hg0)
       (zpow_pow_q hgM.2.2 _))
+  have hkk : checkElement .schnorr G Sp.hi = true := (checkElement_iff hG _).2 hhi
   have hr2 := resp_range hG (c * Sp.x % G.q + r)
   obtain ⟨gm, hgm, -, -, gmv⟩ := fpowm_val hG Sv.tabG G.g ((c * Sp.x % G.q + r) % G.q) hv.tabG hg0
     (by omega)
@@ -411,7 +412,7 @@ theorem key_interactive_complete (hG : ValidGroup G) (Sp Sv : State)
     apply eq_of_toF_eq hG ⟨e0, ep⟩ ⟨hm1.1, hm1.2.1⟩
     rw [ev, gmv, kiv, kcv, hkey, hm1.2.2, key_alg hG _ hgM.2.2]
   generalize (c * Sp.x % G.q + r) % G.q = m2 at hr2 hgm ⊢
-  simp [keyVerifyFinal, hv.grp, bind, Except.bind, pure, Except.pure, hk, hr2, hgm, hkc, hki, e]
+  simp [keyVerifyFinal, hv.grp, bind, Except.bind, pure, Except.pure, hk, hkk, hr2, hgm, hkc, hki, e]
 
 end
 end Tmcg.SigmaComplete
